@@ -54,7 +54,7 @@ class Gen:
             if r.random() < 0.3:
                 e["fdim"] = e["fock"] + r.choice([1, 2, 3] if nenv < 3 else [1, 2])
             envs.append(e)
-        customs = [{"dim": r.choice([2, 3]), "label": 0} for _ in range(ncs)]
+        customs = [{"dim": r.choice([2, 3, 3, 4] if nenv < 3 else [2, 3]), "label": 0} for _ in range(ncs)]
         for c in customs:
             c["label"] = r.randrange(c["dim"])
         refs = [f"e{i}" for i in range(nenv)] + [f"c{i}" for i in range(ncs)]
@@ -307,6 +307,8 @@ class Gen:
         st = {"kind": "kraus", "targets": [w.sid(t) for t in ts], "entry": en, "ops": [mj(K) for K in ops]}
         if en == "ce":
             st["h"] = hi
+        if r.random() < 0.3:
+            st["np_ops"] = True
         return st
 
     def measure(self, w):
@@ -401,9 +403,8 @@ class Gen:
             st["h"] = hi
         if en == "state":
             st["partial"] = True
-        if self.avoid_known:
-            if any(self.in_combined_env(x) for x in ts) and en != "env":
-                pass
+        if r.random() < 0.3:
+            st["np_ops"] = True
         return st
 
     def struct(self, w):
